@@ -15,8 +15,16 @@ Parses with `ast` (never imports) and renders, in the vocabulary of `NixModel/St
                        skip non-groups, `for child in grp`, `self._group.visititems`;
                        the default of `delete(…, delete_if_empty=…)` and the bound in `groupdepth > N` (rest of the body
                        compared with a template); `__delitem__`, `__contains__` (templates)
-  nixio/util/find.py, section.py, source.py   `_find_sections` / `_find_sources` and the argument defaults of
-                       `find_sections` / `find_sources` (templates) -> `FindShape`
+  nixio/util/find.py   `_find_sections` / `_find_sources` statement by statement -> `FindProg` (Store/FindProg.lean):
+                           fifo = [] / result = [] / level = N / level += N                -> .initFifo / .initResult / .setLevel N / .incLevel N
+                           fifo.append(Cont(with_<sub>, level))                            -> .pushStart
+                           fifo += [Cont(e, level) for e in with_<sub>.<attr>]             -> .pushKidsOfStart "<attr>"
+                           fifo += [Cont(e, level) for e in child.elem.<attr>]             -> .pushKidsOfChild "<attr>"
+                           child = fifo.pop(0) / level = child.level + N                   -> .popFront / .levelFromChild N
+                           result.append(child.elem)                                       -> .appendResult
+                           if isinstance(with_<sub>, <class>) / level <= limit / filtr(child.elem): … else: …   -> .ite c [..] [..]
+                           (nested at most twice), one `while len(fifo) > 0:` loop, `return result`
+                       section.py, source.py: the argument defaults of `find_sections` / `find_sources` (templates)
   entity modules       every `Xcontainer("cname", …)` constructor call -> table (owner kind, cname, class, item kind);
                        every `@metadata.deleter`, the `None` branch of `Section.link` / `MultiTag.extents` -> `List RStmt`
 
@@ -344,26 +352,6 @@ def _h5_delete(cls):
 # ---------------------------------------------------------------------------------------------------------
 # find.py
 
-FIND = '''
-def _find_{sub}(with_{sub}, filtr, limit):
-    fifo = []
-    result = []
-    level = 0
-    if isinstance(with_{sub}, {cls}):
-        fifo.append(Cont(with_{sub}, level))
-    else:
-        level += 1
-        if level <= limit:
-            fifo += [Cont(e, level) for e in with_{sub}.{sub}]
-    while len(fifo) > 0:
-        child = fifo.pop(0)
-        level = child.level + 1
-        if level <= limit:
-            fifo += [Cont(e, level) for e in child.elem.{sub}]
-        if filtr(child.elem):
-            result.append(child.elem)
-    return result
-'''
 FIND_METHOD = '''
 def find_{sub}(self, filtr=lambda _: True, limit=None):
     if limit is None:
@@ -375,6 +363,84 @@ def __init__(self, elem, level):
     self.elem = elem
     self.level = level
 '''
+
+
+def _int_const(n):
+    return isinstance(n, ast.Constant) and type(n.value) is int and n.value >= 0
+
+
+def _find_simple(s, sub, w):
+    """one statement of `_find_<sub>` without control flow -> FSimple"""
+    if isinstance(s, ast.Assign) and len(s.targets) == 1 and isinstance(s.targets[0], ast.Name):
+        tgt, v = s.targets[0].id, s.value
+        if tgt == "fifo" and _same(v, _tmpl("[]").value):
+            return ".initFifo"
+        if tgt == "result" and _same(v, _tmpl("[]").value):
+            return ".initResult"
+        if tgt == "level" and _int_const(v):
+            return ".setLevel %d" % v.value
+        if tgt == "level" and isinstance(v, ast.BinOp) and isinstance(v.op, ast.Add) \
+                and _is_attr(v.left, "child", "level") and _int_const(v.right):
+            return ".levelFromChild %d" % v.right.value
+        if tgt == "child" and _same(v, _tmpl("fifo.pop(0)").value):
+            return ".popFront"
+    if isinstance(s, ast.AugAssign) and isinstance(s.op, ast.Add) and isinstance(s.target, ast.Name):
+        if s.target.id == "level" and _int_const(s.value):
+            return ".incLevel %d" % s.value.value
+        if s.target.id == "fifo" and isinstance(s.value, ast.ListComp) and len(s.value.generators) == 1:
+            gen = s.value.generators[0]
+            it = gen.iter
+            if _same(s.value.elt, _tmpl("Cont(e, level)").value) and _is_name(gen.target, "e") and not gen.ifs \
+                    and not gen.is_async and isinstance(it, ast.Attribute):
+                if _is_name(it.value, "with_%s" % sub):
+                    return ".pushKidsOfStart %s" % lean_str(it.attr)
+                if _is_attr(it.value, "child", "elem"):
+                    return ".pushKidsOfChild %s" % lean_str(it.attr)
+    if isinstance(s, ast.Expr):
+        if _same(s.value, _tmpl("fifo.append(Cont(with_%s, level))" % sub).value):
+            return ".pushStart"
+        if _same(s.value, _tmpl("result.append(child.elem)").value):
+            return ".appendResult"
+    raise ExtractError("%s line %d: statement is not modelled: %s" % (w, s.lineno, ast.unparse(s).splitlines()[0]))
+
+
+def _find_cond(t, sub, cls, w):
+    if _same(t, _tmpl("isinstance(with_%s, %s)" % (sub, cls)).value):
+        return ".startIsEntity"
+    if _same(t, _tmpl("level <= limit").value):
+        return ".levelLeLimit"
+    if _same(t, _tmpl("filtr(child.elem)").value):
+        return ".filtrChild"
+    raise ExtractError("%s line %d: condition is not modelled: %s" % (w, t.lineno, ast.unparse(t)))
+
+
+def _find_stmt(s, sub, cls, w, depth):
+    """depth 0: FStmt, 1: FInner, 2: FSimple (no further `if`)"""
+    if isinstance(s, ast.If):
+        if depth >= 2:
+            raise ExtractError("%s line %d: `if` nested more than twice" % (w, s.lineno))
+        return ".ite %s [%s] [%s]" % (_find_cond(s.test, sub, cls, w),
+                                      ", ".join(_find_stmt(x, sub, cls, w, depth + 1) for x in s.body),
+                                      ", ".join(_find_stmt(x, sub, cls, w, depth + 1) for x in s.orelse))
+    simple = _find_simple(s, sub, w)
+    return simple if depth == 2 else ".simple (%s)" % simple if " " in simple else ".simple %s" % simple
+
+
+def _find_prog(fn, sub, cls):
+    """`<prologue>; while len(fifo) > 0: <body>; return result` -> (prologue, body) as lists of FStmt"""
+    w = "find._find_%s" % sub
+    want = _tmpl("def _find_%s(with_%s, filtr, limit):\n    pass" % (sub, sub))
+    if ast.dump(fn.args) != ast.dump(want.args):
+        raise ExtractError("%s: signature changed: %s" % (w, ast.unparse(fn.args)))
+    body = _stmts(fn)
+    loops = [i for i, s in enumerate(body) if isinstance(s, (ast.While, ast.For))]
+    if len(body) < 2 or loops != [len(body) - 2] or not isinstance(body[-2], ast.While) \
+            or not _same(body[-1], _tmpl("return result")):
+        raise ExtractError("%s: not `<statements>; while ...: <body>; return result`" % w)
+    loop = body[-2]
+    if loop.orelse or not _same(loop.test, _tmpl("len(fifo) > 0").value):
+        raise ExtractError("%s line %d: loop is not `while len(fifo) > 0:`" % (w, loop.lineno))
+    return ([_find_stmt(s, sub, cls, w, 0) for s in body[:-2]], [_find_stmt(s, sub, cls, w, 0) for s in loop.body])
 
 
 def _find(repo):
@@ -390,13 +456,12 @@ def _find(repo):
         fn = fns.get("_find_%s" % sub)
         if fn is None:
             raise ExtractError("util/find.py has no _find_%s" % sub)
-        _same_body(fn, FIND.format(sub=sub, cls=cls), "find._find_%s" % sub)
+        out[sub] = _find_prog(fn, sub, cls)
         ecls = _classes(_parse(repo, mod)).get(ent)
         m = _method(ecls, "find_%s" % sub) if ecls is not None else None
         if m is None:
             raise ExtractError("%s.find_%s is missing" % (ent, sub))
         _same_body(m, FIND_METHOD.format(sub=sub), "%s.find_%s" % (ent, sub))
-        out[sub] = True
     return out
 
 
@@ -583,10 +648,11 @@ def shape(repo):
 
 def render(sh):
     L = ["import NixModel.Store.DelShape",
+         "import NixModel.Store.FindProg",
          "/-! GENERATED by harness/extract/delshape.py from nixio/container.py, nixio/hdf5/h5group.py, nixio/util/find.py",
          "and the entity modules — do not edit. -/",
          "namespace Nix.Store.DelShape.Gen",
-         "open Nix.Store.DelShape",
+         "open Nix.Store.DelShape Nix.Store.FindProg",
          ""]
     L.append("/-- statements of the `__delitem__` each container class uses (own or inherited) -/")
     L.append("def delitemOf : ContClass → List DStmt")
@@ -600,10 +666,13 @@ def render(sh):
     L.append("def h5Params : H5DeleteParams := { defaultDeleteIfEmpty := %s, minDepth := %d }"
              % (lean_bool(sh["default"]), sh["bound"]))
     L.append("")
-    L.append("/-- `_find_sections` / `_find_sources` and the defaults of `find_sections()` / `find_sources()` -/")
+    L.append("/-- the statements of `_find_sections` / `_find_sources` (util/find.py): before the `while len(fifo) > 0:` loop, "
+             "and its body -/")
     for sub in ("sections", "sources"):
-        L.append("def find%s : FindShape := { sub := %s, startQueued := true, popFront := true, childrenAtBack := true, "
-                 "resultAppend := true }" % (sub.capitalize(), lean_str(sub)))
+        pro, body = sh["find"][sub]
+        L.append("def find%sProg : FindProg :=" % sub.capitalize())
+        L.append("  { prologue := [%s]," % ",\n                ".join(pro))
+        L.append("    body := [%s] }" % ",\n            ".join(body))
     L.append("")
     L.append("/-- (owner kind, container name, class, item kind) of every container constructor call -/")
     L.append("def containerTable : List (String × String × ContClass × String) := [")
